@@ -126,6 +126,184 @@ def gen_case(rng, pokes=True, n_ops=40, strat=None, force_cfg=None, filters=Fals
 
 
 # ---------------------------------------------------------------------------------------------
+# C06: k-NN histories
+
+KNN_DIMS = [1, 3, 7, 8, 9, 15, 16, 17, 33]
+
+
+def f32round(x):
+    import struct
+    return struct.unpack("<f", struct.pack("<f", x))[0]
+
+
+def knn_vec(rng, dim, metric):
+    """(vector, class) - classes for cos/ip: far from unit norm (gets normalised), unit in f32, in the 2% band"""
+    v = [rng.choice([-1, 1]) * rng.choice([0.1, 0.25, 0.5, 1.0, 1.5, 2.0, 3.0]) * (1 + rng.random() * 0.3) for _ in range(dim)]
+    if rng.random() < 0.25:
+        j = rng.randrange(dim)
+        v = [x * 0.05 for x in v]; v[j] = rng.choice([-1, 1]) * 2.0      # clustered directions
+    if metric == "l2":
+        return [f32round(x) for x in v], "any"
+    c = rng.choices(["far", "unit", "band"], [55, 30, 15])[0]
+    n = math.sqrt(sum(x * x for x in v)) or 1.0
+    if c == "unit":
+        v = [x / n for x in v]
+    elif c == "band":
+        t = math.sqrt(rng.choice([0.985, 0.99, 1.01, 1.015]))
+        v = [x / n * t for x in v]
+    return [f32round(x) for x in v], c
+
+
+def gen_knn_case(rng, n_ops=60, pokes=False):
+    dim = rng.choice(KNN_DIMS)
+    metric = rng.choice(METRICS)
+    nids = rng.choice([4, 8, 16, 40])
+    hard = rng.choice([3, 8, 64, 200])
+    soft = rng.choice([2, 6, 100, 1000])
+    ops = ["cfg strat=lru cap=4 hard=%d soft=%d dim=%d metric=%s" % (hard, soft, dim, metric)]
+    ids = list(range(1, nids + 1))
+    pool = []           # vectors written so far (queries near them)
+    names = ["insert", "delete", "flush", "bulk_load", "knn", "batch_delete"] + (["poke_hot"] if pokes else [])
+    weights = [46, 10, 5, 5, 28, 3] + ([4] if pokes else [])
+    for _ in range(n_ops):
+        op = rng.choices(names, weights)[0]
+        i = rng.choice(ids)
+        if op == "insert":
+            v, _ = knn_vec(rng, dim, metric)
+            pool.append(v)
+            ops.append("insert id=%d v=%s m=-" % (i, vbits(v)))
+        elif op == "delete":
+            ops.append("delete id=%d" % i)
+        elif op == "batch_delete":
+            ops.append("batch_delete ids=%s" % show_vec([rng.choice(ids) for _ in range(rng.choice([1, 2, 5]))]))
+        elif op == "flush":
+            ops.append("flush force=%d" % rng.randrange(2))
+        elif op == "bulk_load":
+            docs = []
+            for j in rng.sample(ids, min(len(ids), rng.choice([1, 2, 4]))):
+                v, _ = knn_vec(rng, dim, metric)
+                pool.append(v)
+                docs.append("%d;%s;-" % (j, vbits(v)))
+            ops.append("bulk_load docs=%s" % "/".join(docs))
+        elif op == "poke_hot":
+            alt = vbits(knn_vec(rng, dim, metric)[0])
+            ops.append("poke_hot id=%d v=%s m=- ver=@cur-1 dig=@v alt=%s" % (i, alt, alt))
+        else:
+            if pool and rng.random() < 0.7:
+                base = rng.choice(pool)
+                q = [f32round(x + rng.choice([0, 0, 1e-3, -1e-2, 0.1]) ) for x in base]
+            else:
+                q, _ = knn_vec(rng, dim, metric)
+            if metric != "l2" and rng.random() < 0.4:
+                s_ = rng.choice([0.5, 2.0, 10.0])
+                q = [f32round(x * s_) for x in q]          # un-normalised query
+            if not any(q):
+                q[0] = 1.0
+            k = rng.choice([1, 1, 2, 3, 5, 10, 50, 1000])
+            ops.append("knn q=%s k=%d ef=%d" % (vbits(q), k, rng.choice([1, 10, 50, 200])))
+        if pokes:
+            ops.append("sizes")      # lets the oracle follow mirror-only plants that a drain repairs into the cold tier
+    ops.append("census")
+    return ops
+
+
+def _vec_of(bits):
+    return [bits_f32(int(b)) for b in bits.split(",")] if bits not in ("-", "") else []
+
+
+def _norm2(v):
+    return sum(x * x for x in v)
+
+
+def knn_reference(metric, qn, v):
+    """(primary true distance, alternative) in f64.  For Cosine/InnerProduct the two differ only when a
+    vector's norm is inside the accepted 2% band but not 1."""
+    dot = sum(a * b for a, b in zip(qn, v))
+    if metric == "l2":
+        d = math.sqrt(sum((a - b) ** 2 for a, b in zip(qn, v)))
+        return d, d
+    nq, nv = math.sqrt(_norm2(qn)), math.sqrt(_norm2(v))
+    cosd = 1.0 - max(-1.0, min(1.0, dot / (nq * nv))) if nq > 0 and nv > 0 else float("inf")
+    ipd = max(0.0, 1.0 - dot)
+    return (cosd, ipd) if metric == "cos" else (ipd, cosd)
+
+
+def knn_oracle(i, f, r, exp, metric, stale_ok):
+    """C06 on the implementation's answer: at most k distinct live documents, each with the true distance to the
+    document's CURRENT vector, in non-decreasing order; an acknowledged, undrained recent write that is strictly
+    closer than the k-th result is present."""
+    fails = []
+    if not r.startswith("ok "):
+        return fails
+    k = int(f["k"])
+    qn = _vec_of(f["qn"])
+    res = [] if r.split(" res=")[1] == "-" else [tuple(int(x) for x in c.split(":")) for c in r.split(" res=")[1].split(",")]
+    ids = [c[0] for c in res]
+    dists = [bits_f32(c[2]) for c in res]
+    if len(res) > k:
+        fails.append(("c06", i, "%d results for k=%d" % (len(res), k)))
+    if len(set(ids)) != len(ids):
+        fails.append(("c06", i, "duplicate documents in the result: %s" % ids))
+    for a, b in zip(dists, dists[1:]):
+        if not (a <= b):
+            fails.append(("c06", i, "distances not in non-decreasing order: %s" % dists)); break
+    for id_, d in zip(ids, dists):
+        if id_ not in exp:
+            fails.append(("c06", i, "result contains document %d which does not exist now (deleted)" % id_)); continue
+        v = _vec_of(exp[id_][0])
+        t1, t2 = knn_reference(metric, qn, v)
+        tol = 2e-4 * (1 + abs(t1))
+        if abs(d - t1) <= tol:
+            continue
+        if abs(d - t2) <= 2e-4 * (1 + abs(t2)):
+            fails.append(("c06-distance-band", i, "document %d reported at distance %.6g; true %s distance to its current vector is %.6g "
+                          "(|q|^2=%.4f |v|^2=%.4f: a vector accepted un-normalised inside the 2%% band)" % (
+                              id_, d, metric, t1, _norm2(qn), _norm2(v))))
+        else:
+            fails.append(("c06", i, "document %d reported at distance %.6g; true distance to its current vector is %.6g" % (id_, d, t1)))
+    # recent writes
+    hotset = [] if f.get("hotset", "-") == "-" else [int(x) for x in f["hotset"].split(",")]
+    kth = dists[-1] if len(res) >= k and res else None
+    for h in hotset:
+        if h in ids or h not in exp or h in stale_ok:
+            continue
+        t1, t2 = knn_reference(metric, qn, _vec_of(exp[h][0]))
+        dh = max(t1, t2)
+        if not math.isfinite(dh):
+            continue
+        if kth is None or dh < kth - (1e-3 * (1 + abs(kth)) + (0.045 if metric != "l2" else 0.0)):
+            fails.append(("c06-recent-write-missing", i, "document %d is in the recent-write tier at distance %.6g but missing from a "
+                          "result of %d (k=%d) whose last distance is %s" % (h, dh, len(res), k, kth)))
+            break
+    return fails
+
+
+def _knn_items(line):
+    r = line.split(" res=", 1)[1].split(" ")[0]
+    return [] if r == "-" else [tuple(int(x) for x in c.split(":")) for c in r.split(",")]
+
+
+def compare(impl, model):
+    """tiered results; k-NN answers are compared up to the (unspecified) order and choice among equal distances:
+    same path, same sequence of distance keys, same documents strictly inside the last key"""
+    from . import corr
+    a, b = corr.strip_amb(impl), corr.strip_amb(model)
+    if a == b:
+        return True
+    if " res=" in a and " res=" in b and a.split(" res=")[0] == b.split(" res=")[0]:
+        x, y = _knn_items(a), _knn_items(b)
+        if [c[1] for c in x] != [c[1] for c in y]:
+            return False
+        if not x:
+            return True
+        last = x[-1][1]
+        return sorted(c for c in x if c[1] != last) == sorted(c for c in y if c[1] != last)
+    return False
+
+
+from . import corr as _corr
+_corr.COMPARERS["tiered"] = compare
+
 
 def fields(line):
     parts = line.split(" ")
@@ -155,6 +333,7 @@ def oracle(raw_ops, ann, res):
     filt_marks = []
     poked_hot = {}      # id -> (vec, meta) for plants the engine may later "repair" from
     hot_keys = []
+    stale_mirror = set()     # ids whose hot mirror may legitimately be stale (planted, or overwritten past the hot tier)
     poke_hot_seen = False
     last_write_op = None
     nums = {}
@@ -167,6 +346,15 @@ def oracle(raw_ops, ann, res):
         if r.startswith("panic"):
             fails.append(("panic", i, r))
             continue
+        if op == "knn":
+            fails += knn_oracle(i, f, r, exp, metric, stale_mirror)
+            continue
+        if op == "bulk_load" and f.get("docs", "-") != "-":
+            stale_mirror |= {int(rec.split(";")[0]) for rec in f["docs"].split("/")}
+        if op == "poke_hot":
+            stale_mirror.add(int(f["id"]))
+        if op == "insert" and r == "ok":
+            stale_mirror.discard(int(f["id"]))
         if op == "delete_by_filter":
             toks = f["f"].split(",")
             victims = [k for k, (v, m) in exp.items() if match_filter(list(toks), m, nums)]
